@@ -69,24 +69,30 @@ kf("K5-C03", "P15 comment-before-list-marker", "C03", r"^C03\|not-idempotent\|(.
 # --------------------------------------------------------------------------- K6: list items in a content block whose bracket cannot be broken
 D5 = "a list/enum/term item that starts right after '[' inside a context where the bracket cannot be moved to its own line (strong/emph body, a line of text, a heading): the following lines are indented by one unit relative to the enclosing indentation, not relative to the marker, so with tab width 4 (or deeper nesting) they change their nesting"
 kf("K6-C08", "D5 list-after-bracket-unbreakable", "C08", r"^C08\|tokens-moved-between-markup-nodes\|", "*#[- foo\n\n  bar\n]*", D5, "tokens-moved-between-markup-nodes")
+kf("K6b-C01", "D5 list-after-bracket-unbreakable (text line built by a production)", "C01", r"^C01\|tree\|spine=(doc|hash|item|heading|content_ml)/[^|]*/content\w*(@\d)?/(list|enum|term)\w*\|", "_#[- foo\n- bar]_", D5 + " - here the unbreakable surroundings come from a production (emph / strong body, code followed by text, a sequence on one line)", "tree")
 kf("K6-C01", "D5 list-after-bracket-unbreakable", "C01", r"^C01\|tree\|(spine=(strong|mixed|heading|item)/|(.*&)?dev=markup:\w*>(Strong|Emph|Heading|ListItem|EnumItem|TermItem|Markup|ContentBlock)\[[^\]]*(Marker|Hash|LeftBracket|RightBracket|Star|Underscore)[^\]]*\])", "*#[- foo\n\n  bar\n]*", D5, "tree")
 
 K13 = "a lone '-' next to the closing ']' of a content block whose last element is a list item: as plain text ('-]') it becomes an empty item when the bracket is moved to its own line; as an empty item ('- ]') it becomes plain text when the blank before ']' is dropped"
 kf("K13-C02", "lone marker next to ']'", "C02", r"^C02\|rendering-differs\|(spine|dev=.*\|at)=\S*/list_nest_empty", PRELUDE + "#{\n  [- foo\n    -]\n}", K13, "rendering-differs")
 kf("K13-C13", "lone marker next to ']'", "C13", r"^C13\|splice-changes-tree\|(spine|dev=.*\|at|extra=damage:\w+@\d+:\S*)[=/]\S*list_nest_empty", "#g[\n  - foo\n    -]", K13 + " (range formatting of the call or the document)", "splice-changes-tree")
-kf("K8m-C03", "block comment with a blank-only line inside math call arguments", "C03", r"^C03\|not-idempotent\|(.*&)?dev=math:[^|&]*:bc_ws_line\|at=[^|]*m_fn", "$fn(k/*c1\n    d\n  \n    e*/: x)$", "a multi-line block comment with a whitespace-only line inside the arguments of a math function call, at a width where the call just fits: the first pass breaks the arguments, the second (which sees the blank line emptied by the trailing-blank pass) keeps them on one line", "not-idempotent")
+kf("K8m-C03", "block comment with a blank-only line inside math call arguments", "C03", r"^C03\|not-idempotent\|(.*&)?dev=math:[^|&]*:bc_ws_line[|&]", "$fn(k/*c1\n    d\n  \n    e*/: x)$", "a multi-line block comment with a whitespace-only line inside math (call arguments, delimiters, matrix rows), at a width where the group just fits: the first pass breaks the arguments, the second (which sees the blank line emptied by the trailing-blank pass) keeps them on one line", "not-idempotent")
+kf("K14-C01", "parentheses around an array on the left of '='", "C01", r"^C01\|tree\|spine=[^|]*/(assign|destruct)\w*(@\d)?/(paren\w*|pat_paren)(@\d)?/(arr0|pat_sink0)\|", "#{\n  (()) = a\n}", "'(()) = a' / '((..r)) = a': the redundant parentheses around an empty or spread-only array on the left of an assignment are removed, which turns the (meaningless) assignment to a parenthesised array into a destructuring assignment", "tree")
+kf("K13-C06", "lone marker next to ']'", "C06", r"^C06\|moved-across-word\|(.*&)?dev=[^|]*\|at=[^|]*list_nest_empty", "#{\n  [- foo\n    -]/*c1*/}", K13 + " - the census position of every later comment shifts by one word", "moved-across-word")
+kf("K2-C06", "P13 math-row-trailing-comma", "C06", r"^C06\|moved-across-word\|(.*&)?dev=math:\w+>Array\[[^\]]*\]:(lc|lc_sp|lc_lc|nl_lc|off_lc|off_reason)[|&].*\|at=[^|]*m_fn_bs", "$ fn(x,//c1\ny \\ ; z/*c3*/) $", P13 + " - behind a backslash the added comma forms the escape '\\,', which shifts the census position of every later comment", "moved-across-word")
+kf("K14-C04", "parentheses around a dict on the left of '='", "C04", r"^C04\|erroneous-output\|spine=[^|]*/(assign|destruct)\w*(@\d)?/paren\w*(@\d)?/dict0\|", "#{\n  ((:)) = a\n}", "'((:)) = a': the redundant parentheses around an empty dict on the left of an assignment are removed; '(:) = a' is read as a destructuring with an invalid pattern", "erroneous-output")
 kf("K13-C01", "lone marker-like text before ']'", "C01", r"^C01\|tree\|(spine|dev=.*\|at)=\S*/list_nest_empty", "#{\n  [- foo\n    -]\n}", "a lone '-' (or '+', '=') that is plain text because ']' follows it directly, at the start of the last line of a multi-line content block whose last element is a list item: the closing bracket is moved to its own line (the repair of P14) and the token becomes an empty list item", "tree")
 
 # --------------------------------------------------------------------------- K7: parentheses around a literal removed before text (P1)
 P1 = "'#(auto)bar', '#(1)a', '#(none)x': the parentheses around a literal embedded in markup are removed and the literal fuses with the text that follows"
 kf("K7-C08", "P1 paren-removal-fuses-literal", "C08", r"^C08\|text-changed\|(.*&)?dev=markup:\S*>Markup\[RightParen\^Text\]:none", "foo #(auto)bar", P1, "text-changed")
-kf("K7-C01", "P1 paren-removal-fuses-literal", "C01", r"^C01\|tree\|(spine=\w+/hash_tight@0/paren\d?@0/|(.*&)?dev=markup:\S*>Markup\[RightParen\^Text\]:none)", "foo #(auto)bar", P1, "tree")
-kf("K7-C04", "P1 paren-removal-fuses-literal", "C04", r"^C04\|erroneous-output\|(spine=\w+/hash_tight@0/paren\d?@0/|(.*&)?dev=markup:\S*>Markup\[RightParen\^Text\]:none)", "#(1)foo", P1 + " ('#1foo' is a number with an invalid suffix)", "erroneous-output")
-kf("K7-C10", "P1 paren-removal-fuses-literal", "C10", r"^C10\|literal-changed\|((.*&)?dev=markup:\S*>Markup\[RightParen\^Text\]:none|extra=lit:[\w+]+@\w+/hash_tight@0/paren)", "foo #(auto)bar", P1, "literal-changed")
+kf("K7-C01", "P1 paren-removal-fuses-literal", "C01", r"^C01\|tree\|(spine=\w+/hash_tight@0/paren\w*@0/|(.*&)?dev=markup:\S*>Markup\[RightParen\^Text\]:none)", "foo #(auto)bar", P1, "tree")
+kf("K7-C04", "P1 paren-removal-fuses-literal", "C04", r"^C04\|erroneous-output\|(spine=\w+/hash_tight@0/paren\w*@0/|(.*&)?dev=markup:\S*>Markup\[RightParen\^Text\]:none)", "#(1)foo", P1 + " ('#1foo' is a number with an invalid suffix)", "erroneous-output")
+kf("K7-C10", "P1 paren-removal-fuses-literal", "C10", r"^C10\|literal-changed\|((.*&)?dev=markup:\S*>Markup\[RightParen\^Text\]:none|extra=lit:[\w+]+@[\w/@]*hash_tight(@\d)?/paren)", "foo #(auto)bar", P1, "literal-changed")
 
 # --------------------------------------------------------------------------- K8: convergence classes
 E = "a node that always breaks (code block with two statements or with a comment, an import list at width 0, a table) inside a context where line breaks are suppressed (a line of text, an equation): the first pass emits the hard breaks inside an otherwise flat layout, the second pass then sees a multi-line source and lays the surroundings out differently (converges after two passes)"
 kf("K8a-C03", "E forced-break-under-suppression", "C03", r"^C03\|not-idempotent\|spine=(mixed|math_i|math_b|math_hash|item|heading|strong)/.*(block2_semi|block2_ml|import\w*|table\w*|grid\w*)\|size=", "foo #({a; b},) bar", E, "not-idempotent")
+kf("K8a2-C03", "E forced-break-under-suppression (text line built by a production)", "C03", r"^C03\|not-idempotent\|spine=(doc/(hash_text|hash_tight|text_hash)(@\d)?|hash/[^/|]+)/[^|]*(block2_semi|block2_ml|import\w*|table\w*|grid\w*)\|size=", "#if a { import \"m.typ\": a } foo", E + " - here the text line comes from a production (code followed by text on the same line; in markup a binary operator after an embedded expression is text)", "not-idempotent")
 kf("K8k-C03", "E forced-break-under-suppression (with a deviation elsewhere)", "C03", r"^C03\|not-idempotent\|dev=.*\|at=(mixed|math_i|math_b|math_hash|hash|item|heading|strong|let|arg|doc)/.*(block2_semi|block2_ml)", "#if a { {b; c} } elseif d { e }", E, "not-idempotent")
 kf("K6-C03", "D5 list-after-bracket-unbreakable", "C03", r"^C03\|not-idempotent\|(spine|dev=.*\|at)=(mixed|strong|heading|item)/content\w*@0/(list|enum|term)\w*", "foo #[- foo\n- bar] bar", D5 + " - with tab width 8 the first pass nests the second item and the second pass nests it further", "not-idempotent")
 kf("K8l-C03", "directive at the end of a list item line", "C03", r"^C03\|not-idempotent\|(.*&)?dev=markup:ListItem>Markup\[Text\^ListMarker\]:(off_lc|off_reason)", "#g[\n  - foo// @typstyle off\n- bar\n      - baz\n]", "a line-comment directive at the end of a list item line protects the following list item; its verbatim text keeps the source indentation, which the next pass reads as a different nesting", "not-idempotent")
@@ -94,11 +100,13 @@ kf("K8b-C03", "E forced-break-under-suppression", "C03", r"^C03\|not-idempotent\
 kf("K8c-C03", "E / trivia inside a field access chain", "C03", r"^C03\|not-idempotent\|(.*&)?dev=\w+:\w+>FieldAccess\[.*\|at=.*(block2_semi|block2_ml|import\w*|table\w*|grid\w*)", "#a.f({b; c}).\ng(d)", "a line break or comment inside a method chain whose call arguments hold a node that always breaks: " + E, "not-idempotent")
 kf("K8d-C03", "H asymmetric content block edge", "C03", r"^C03\|not-idempotent\|(.*&)?dev=markup:\w+>ContentBlock\[(LeftBracket\^\w+|\w+\^RightBracket)\]", "#[ $ x $]", "a content block with a blank at only one of its inner edges whose content breaks at a narrow width: the first pass keeps the blank as a space because the source is on one line, the second pass sees a multi-line source and turns it into a line break", "not-idempotent")
 kf("K8d2-C03", "H asymmetric content block edge (heading)", "C03", r"^C03\|not-idempotent\|extra=prose:block_heading_sp:", "#[= #g(a, b) ]", "a heading inside a content block, followed by a blank before ']', whose content breaks at a narrow width: the first pass keeps the blank as a space, the second pass sees a multi-line source and turns it into a line break", "not-idempotent")
+kf("K8d3-C03", "H asymmetric content block edge (comment at the edge)", "C03", r"^C03\|not-idempotent\|extra=prose:(block|call_trailing|if_block|in_code|nested|emph|strong):(/\*c\*/_.*|.*_/\*c\*/)$", "#[#g(a, b) /*c*/]", "a block comment at the inner edge of a content block (or strong / emph body) whose other content breaks at a narrow width: the first pass prints a blank between the comment and the closing delimiter, the second pass reads that as a blank at one edge only and breaks there", "not-idempotent")
 kf("K8e-C03", "P12 heading with line comment", "C03", r"^C03\|not-idempotent\|(.*&)?dev=markup:[\w-]*>(Heading|Markup)\[HeadingMarker\^\w+\]:(lc|lc_sp|lc_lc|nl_lc|off_lc|off_reason)", "=//c1\nfoo", "a line comment directly after a heading marker gains a space on the second pass", "not-idempotent")
 kf("K8f-C03", "adjacent comments after a chain operator", "C03", r"^C03\|not-idempotent\|(.*&)?dev=\w+:\w+>(Binary\[\w+\^\w+\]|FieldAccess\[Dot\^Ident\]):bc_bc", "#let v = a + b +/*c1*//*c2*/c", "two adjacent block comments after an operator of a broken binary chain (or after the dot of a broken method chain) are printed tight by the first pass and spaced by the second", "not-idempotent")
 kf("K8h-C03", "E / comment between call parts", "C03", r"^C03\|not-idempotent\|(.*&)?dev=markup:\w+>(FuncCall\[Ident\^LeftParen\]|Args\[RightParen\^LeftBracket\]):(bc|bc_sp|bc_ml|bc_star|bc_bc|sp|off_bc|off_tight|off_mid|bc_ws_line|bc_blank|bc_tab|bc_uni).*\|at=.*(block2_semi|block2_ml|import\w*|table\w*|grid\w*)", "#a({b; c})/*c1*/[foo]", "a comment (or blank) between the parts of a call whose argument holds a node that always breaks: " + E, "not-idempotent")
 kf("K8i-C03", "comment before ')' of a parenthesised import list", "C03", r"^C03\|not-idempotent\|(.*&)?dev=code:\w+>ModuleImport\[Ident\^RightParen\]:(bc|bc_sp|bc_ml|bc_star|bc_bc|off_bc|off_tight|off_mid|bc_ws_line|bc_blank|bc_tab|bc_uni)", "#{import \"m.typ\": (b, a/*c1*/)}", "a block comment before the closing parenthesis of an import list inside a code block: the first pass drops the parentheses and keeps the block on one line, the second pass breaks the block", "not-idempotent")
 kf("K8j-C03", "directive before an operand that gets optional parentheses", "C03", r"^C03\|not-idempotent\|(.*&)?dev=code:\w+>(ForLoop\[In\^\w+\]|Closure\[(Arrow|Eq)\^\w+\]):(off_bc|off_lc|off_tight|off_reason|off_mid)", "#for p in/* @typstyle off */a { b }", "an '@typstyle off' comment in front of a for-loop iterable or a closure body: at a narrow width the verbatim operand is wrapped in optional parentheses/braces by the first pass and the rest of the statement is laid out differently by the second", "not-idempotent")
+kf("K8n-C03", "directive directly before a comma", "C03", r"^C03\|not-idempotent\|(.*&)?dev=code:\w+>\w+\[\w+\^Comma\]:(off_bc|off_tight|off_mid)[|&]", "#g((..a/* @typstyle off */, k: b + c))", "an '@typstyle off' block comment between a list item and its comma is printed behind the comma (as every comment is); there it precedes the next item, which the second pass therefore treats as protected", "not-idempotent")
 kf("K8g-C03", "table.<newline>header", "C03", r"^C03\|not-idempotent\|(.*&)?dev=\w+:\w+>FieldAccess\[Dot\^Ident\].*\|at=.*(table_hdr\w*|table_ftr\w*|grid_ftr\w*)", "#(table(columns: 2, table.\nheader(a, b), c, d))", "'table.header' written with a line break after the dot is not recognised as a header row by the first pass (the callee text is compared verbatim), but is by the second", "not-idempotent")
 
 # --------------------------------------------------------------------------- K9: comment inside 'not in'
